@@ -77,7 +77,19 @@ JudgeFresh(l) ==
   /\ l.kind = "ok" /\ l.maxin = 1
   /\ Len(l.effects) = l.n /\ {l.effects[i].v : i \in DOMAIN l.effects} = 1..l.n /\ \A i \in DOMAIN l.effects : l.effects[i].thr = "g1"
   /\ Len(l.delivered) = l.n /\ {l.delivered[i].v : i \in DOMAIN l.delivered} = 1..l.n
-JudgePart(l) == CASE l.part = "conc" -> JudgeConc(l) [] l.part = "branch" -> JudgeBranch(l) [] l.part = "sibling" -> JudgeSibling(l)
+\* ---- src.ObserveOn(h1).SubscribeOn(h2).FlatMap(f)... (n continuations) is a new, unconfigured monad: the source's effect (logged 0), the
+\* continuations (1..n) and OnNext all run on the subscribing goroutine, in composition order, before Subscribe returns
+JudgeInherit(l) ==
+  /\ l.kind = "ok"
+  /\ l.effects = [i \in 1..(l.n + 1) |-> [v |-> i - 1, thr |-> "caller"]]
+  /\ l.delivered = <<[v |-> 1000 + l.n, thr |-> "caller"]>>
+\* ---- evaluations of one monad that nest or overlap complete: the loop (effect runs 3 times, value 30), an effect evaluating its own monad
+\* (runs twice, value 30), two evaluations that wait for each other (both see both inside: 22)
+JudgeReentrant(l) ==
+  /\ l.kind = "ok"
+  /\ [i \in DOMAIN l.effects |-> l.effects[i].v] = (CASE l.obOn = "loop" -> <<1, 2, 3>> [] l.obOn = "self-eval" -> <<1, 2>> [] OTHER -> <<1, 1>>)
+  /\ l.delivered = <<[v |-> (CASE l.obOn = "loop" -> 30 [] l.obOn = "self-eval" -> 30 [] OTHER -> 22), thr |-> "-"]>>
+JudgePart(l) == CASE l.part = "conc" -> JudgeConc(l) [] l.part = "inherit" -> JudgeInherit(l) [] l.part = "reentrant" -> JudgeReentrant(l) [] l.part = "branch" -> JudgeBranch(l) [] l.part = "sibling" -> JudgeSibling(l)
                   [] l.part = "fresh" -> JudgeFresh(l) [] OTHER -> JudgeReconf(l)
 
 \* ---- the monad laws on the denotation (checked by TLC over the bounded program space in MC_MonadIO)
